@@ -1,3 +1,4 @@
+import os
 """K6 — panic-site inventory over a call-graph cone."""
 from collections import defaultdict
 from kernel import *
@@ -186,7 +187,15 @@ def classify(prog, R, rule, fns, reviewed, skip=lambda s: False, auto=None):
     # kind and description in the same crate takes over such an entry once (the code moved, it did not appear), unless
     # the entry's reason is tied to the old function's structure (callers / guard / dominating call / grammar fact)
     present = {f"{rule}:{x['key']}" for x in sites}
-    orphans = [k for k, e in reviewed.items() if k.startswith(rule + ":") and k not in present and not any(e.get(c) for c in ("guard", "calls_dominated", "after_first", "completes"))]
+    # (an entry for a function that still exists but lies outside this rule's cone is not an orphan: the table is
+    # shared between properties whose cones differ)
+    cone_short = {ishort(f) for f in fns}
+    all_short = {ishort(f) for f in prog.bodies}
+
+    def _fn_of(k):
+        return k.split(":", 1)[1].split("|")[0]
+    orphans = [k for k, e in reviewed.items() if k.startswith(rule + ":") and k not in present and not any(e.get(c) for c in ("guard", "calls_dominated", "after_first", "completes"))
+               and (_fn_of(k) in cone_short or _fn_of(k) not in all_short)]
 
     def _eff_callers(fn_, want_):
         def _exp(cs, depth=0):
@@ -200,6 +209,9 @@ def classify(prog, R, rule, fns, reviewed, skip=lambda s: False, auto=None):
             return out_
         # a site inside a closure of F is reached under F's call contexts
         return sorted(_exp(callers.get(fn_.split("::{closure")[0], ())))
+
+    if os.environ.get("OQ3_DEBUG_ORPHANS"):
+        print("ORPHANS", rule, len(orphans), orphans[:12])
 
     def _mid(k):
         parts = k.split("|")
@@ -220,7 +232,8 @@ def classify(prog, R, rule, fns, reviewed, skip=lambda s: False, auto=None):
         return None
     try:
         from framework import load_known
-        known_orphans = [k["key"] for k in load_known() if k.get("property") == R.pid and k.get("status") == "known" and k["key"].startswith(rule + ":") and k["key"] not in present]
+        known_orphans = [k["key"] for k in load_known() if k.get("property") == R.pid and k.get("status") == "known" and k["key"].startswith(rule + ":") and k["key"] not in present
+                         and (_fn_of(k["key"]) in cone_short or _fn_of(k["key"]) not in all_short)]
     except Exception:
         known_orphans = []
 
